@@ -138,7 +138,7 @@ def finish(prop: str, level: str, tier: str, seed: int, results: List[Result], t
         viol_lines.append(f"VIOLATION property={prop} replay={rp}")
     seen = set()
     for fd, r in matched:
-        k = (fd.get("key"), fd.get("witness_class"))
+        k = (fd.get("key"), str(fd.get("witness_class")))
         if k in seen:
             continue
         seen.add(k)
